@@ -8,9 +8,11 @@ import (
 // A tiny EVM assembler: opcodes, minimal-width PUSH, and 2-byte label references.
 const (
 	opSTOP         = 0x00
+	opLT           = 0x10
 	opEQ           = 0x14
 	opBYTE         = 0x1a
 	opCALLDATALOAD = 0x35
+	opCODESIZE     = 0x38
 	opCODECOPY     = 0x39
 	opPOP          = 0x50
 	opMSTORE       = 0x52
